@@ -4,6 +4,7 @@ import (
 	"context"
 	"errors"
 	"strconv"
+	"sync"
 	"time"
 
 	simplefixgo "github.com/b2broker/simplefix-go"
@@ -217,6 +218,10 @@ type AccSession struct {
 }
 
 type AccSide struct {
+	// pub publishes accepted sessions to application tasks through synchronisation the race
+	// detector can see (as a real application hands a session to its goroutines); it orders
+	// nothing but that hand-off.
+	pub      sync.Mutex
 	w        *World
 	L        *Listener
 	A        *simplefixgo.Acceptor
@@ -269,7 +274,9 @@ func (w *World) StartAcceptor(cfg AccCfg) *AccSide {
 		if err := s.Run(); err != nil {
 			panic("harness: acceptor session Run: " + err.Error())
 		}
+		as.pub.Lock()
 		as.Sess = append(as.Sess, sess)
+		as.pub.Unlock()
 		if cfg.OnSession != nil {
 			cfg.OnSession(sess)
 		}
@@ -391,4 +398,11 @@ func PeerClock() string { return time.Now().UTC().Format("20060102-15:04:05.000"
 func AdminMsg(typ string, seq int, sender, target string, extra ...Field) []Field {
 	fs := []Field{{Tag: "35", Val: typ}, F(TagSenderCompID, sender), F(TagTargetCompID, target), FI(TagMsgSeqNum, seq), F(TagSendingTime, PeerClock())}
 	return append(fs, extra...)
+}
+
+// Sessions returns the accepted sessions, acquired through the visible publication lock.
+func (as *AccSide) Sessions() []*AccSession {
+	as.pub.Lock()
+	defer as.pub.Unlock()
+	return append([]*AccSession(nil), as.Sess...)
 }
